@@ -55,6 +55,16 @@ def fuse_consecutive_layers(mod: fx.GraphModule, first: Type[nn.Module], second:
         if (is_second and is_prev_first):
             if len(node.args[0].users) > 1:
                 raise ValueError("The first layer of the pair to be fused has multiple users")
+            if (node.args[0].target, node.target) not in fused:
+                # a first layer invoked several times must be followed by the same second layer at
+                # each of its call sites: fusing would otherwise change what the others compute
+                for other in mod.graph.nodes:
+                    if other.op == 'call_module' and other.target == node.args[0].target:
+                        users = list(other.users)
+                        if not (len(users) == 1 and users[0].op == 'call_module' and
+                                users[0].target == node.target):
+                            raise ValueError("The first layer of the pair to be fused is also "
+                                             "invoked without the second one")
             if (node.args[0].target, node.target) in fused:
                 pass
             elif in_place:
